@@ -9,7 +9,7 @@ from __future__ import annotations
 
 import itertools
 
-from ..absint import Model, Opq, Atom, Some, Raised, Unknown, truth
+from ..absint import Model, Opq, Atom, Some, Raised, Unknown, ModelError, TreeDef, truth
 from ..model import AnalysisError
 from ..symeval import subterms, is_const, C, NONE
 from .util import mk_ev, summarize, func_loc, short, is_call, items, N, call
@@ -57,27 +57,6 @@ def _eq(a, b):
 
 def zero(v):
     return Opq("zero_tangent_like", v)
-
-
-class TreeDef:
-    """Model tree definition: 'args' -> tuple of leaves, 'kwargs' -> (tuple(leaves[:-1]), {'kw': leaves[-1]}), 'single' -> the bare leaf."""
-    def __init__(self, kind):
-        self.kind = kind
-
-    def __repr__(self):
-        return f"treedef<{self.kind}>"
-
-    def unflatten(self, leaves):
-        leaves = list(leaves)
-        if self.kind == "args":
-            return tuple(leaves)
-        if self.kind == "kwargs":
-            return (tuple(leaves[:-1]), {"kw": leaves[-1]})
-        if self.kind == "single":
-            return leaves[0]
-        if self.kind == "out":
-            return tuple(leaves) if len(leaves) != 1 else leaves[0]
-        raise Unknown("treedef")
 
 
 def is_dualv(v):
@@ -561,6 +540,34 @@ def default_jvp_path(ctx, rule="ROLE-default-jvp"):
             ctx.bad(rule, construct, k, v, I.loc)
     else:
         ctx.ok(rule, construct, "primitive_jvps dispatch with canonicalised tangents; all-zero shortcut; zeros instantiated")
+    # --- multiple-result primitives: JAX's rules return (primals_out, tangents_out) as two sequences whose container types are
+    #     unspecified (sort's rule returns a tuple and a list); JAX pairs them with zip.  The write-back must not depend on the containers.
+    construct2 = "adev.ADEV.eval_jaxpr_adev[default, multiple results]"
+    mbad = None
+    for pc, tc in ((tuple, list), (list, tuple), (list, list), (tuple, tuple)):
+        invals = [DualV(a[i], t[i]) for i in range(2)]
+        canon = [Opq("canonical", a[i], t[i]) for i in range(2)]
+        m = I.model(ADD, ADD, params, {}, invals, zeroset=[])
+        m.bind(("attr", ("attr", I.EQN, "primitive"), "multiple_results"), True)
+        m.funcs["jax.interpreters.ad.primitive_jvps.get"] = lambda p, *d: (lambda ps_, ts_, **kw: (pc([Atom("P", 0), Atom("P", 1)]), tc([Atom("T", 0), Atom("T", 1)])))
+        try:
+            ex = I.first_exit(m)
+            out = m.ev(OUT) if ex is None else None
+        except ModelError as e:
+            mbad = (f"rule returning ({pc.__name__}, {tc.__name__})", f"the write-back fails: {e}")
+            break
+        except Unknown as e:
+            raise AnalysisError(f"{construct2}: cannot evaluate: {e}")
+        want = [DualV(Atom("P", i), Opq("instantiated", Atom("T", i))) for i in range(2)]
+        if ex is not None or not (isinstance(out, (list, tuple)) and _eq(list(out), want)):
+            mbad = (f"rule returning ({pc.__name__}, {tc.__name__})", f"written back {out!r} (exit {ex[:2] if ex else None}); expected {want!r}")
+            break
+    if mbad:
+        ctx.bad(rule, construct2, "outputs of a multiple-result primitive paired positionally, whatever containers the JVP rule returns",
+                f"for a multiple-result primitive whose JVP {mbad[0]}, {mbad[1]}: JAX pairs primals_out and tangents_out with zip (sort, sort_key_val, top_k return a tuple "
+                "and a list), so jvp_estimate/grad_estimate raise where jax.jvp/jax.grad succeed; input: expectation(lambda x: lax.sort_key_val(keys, x * w)[1].sum()).grad_estimate(2.0)", I.loc)
+    else:
+        ctx.ok(rule, construct2, "outputs paired positionally for every container combination")
 
 
 # ================================================================================================ cond (C15) and forward_mode
